@@ -8,6 +8,9 @@ CONSTANTS
   PackRounds = 2
   CleanRounds = 2
   Order <- OrderPacksFirst
+  PrevIdx <- MCPrevIdx
+  Incremental = FALSE
+  IdxByChecksum = TRUE
   RestCopiesLiveIndex = FALSE
 INVARIANT BackupValid
 INVARIANT SourceOK
